@@ -41,8 +41,11 @@ PY_HELPER_DEF = dict(C_HELPER_DEF, **{"eq": "eq_func", "neq": "neq_func", "lt": 
 C_TYPE = {"variable_of_integration": "VARIABLE_OF_INTEGRATION", "state": "STATE", "constant": "CONSTANT",
           "computed_constant": "COMPUTED_CONSTANT", "algebraic": "ALGEBRAIC", "external": "EXTERNAL"}
 VALID_TYPES = ("ode", "dae", "nla", "algebraic")
-# GCC diagnostic option -> known finding id (matchers: product_in_truth_position / fabs_of_comparison below)
-DIAG_FINDINGS = {"int-in-bool-context": "C17-product-in-boolean-context", "absolute-value": "C17-fabs-of-comparison"}
+# GCC diagnostic option -> known finding id (matchers over the equations' ASTs: DIAG_MATCHERS below)
+DIAG_FINDINGS = {"int-in-bool-context": "C17-product-in-boolean-context", "absolute-value": "C17-fabs-of-comparison",
+                 "logical-not-parentheses": "C17-not-operand-of-comparison", "parentheses": "C17-comparison-operand-of-comparison"}
+# for -Wparentheses only these two messages belong to the finding ("suggest parentheses around '&&' within '||'" etc. do not)
+PAREN_MESSAGES = ("comparisons like", "around comparison in operand of")
 RELATIONAL = ("EQ", "NEQ", "LT", "LEQ", "GT", "GEQ")
 
 
@@ -112,7 +115,27 @@ def fabs_of_comparison(asts):
     return False
 
 
-DIAG_MATCHERS = {"int-in-bool-context": product_in_truth_position, "absolute-value": fabs_of_comparison}
+def not_operand_of_comparison(asts):
+    """matcher of C17-not-operand-of-comparison: the LEFT operand of a relational operator is a NOT ('!a < b')"""
+    for a in asts:
+        for n in _walk(a):
+            if n[0] in RELATIONAL and n[2] is not None and n[2][0] == "NOT":
+                return True
+    return False
+
+
+def comparison_operand_of_comparison(asts):
+    """matcher of C17-comparison-operand-of-comparison: an operand of a relational operator is itself relational
+    ('a < b < c', 'a == b < c', 'a != b == c')"""
+    for a in asts:
+        for n in _walk(a):
+            if n[0] in RELATIONAL and any(k is not None and k[0] in RELATIONAL for k in (n[2], n[3])):
+                return True
+    return False
+
+
+DIAG_MATCHERS = {"int-in-bool-context": product_in_truth_position, "absolute-value": fabs_of_comparison,
+                 "logical-not-parentheses": not_operand_of_comparison, "parentheses": comparison_operand_of_comparison}
 
 
 # --------------------------------------------------------------------------- small helpers
@@ -465,7 +488,8 @@ def compile_and_read_c(d, h, c, ode, nla):
         # still judged (any other diagnostic stays fatal)
         kinds = set(re.findall(r"\[-Werror=([\w-]+)\]", res["diagnostics"]))
         res["diag_kinds"] = sorted(kinds)
-        if kinds and kinds <= set(DIAG_FINDINGS):
+        paren_ok = all(any(m in l for m in PAREN_MESSAGES) for l in res["diagnostics"].split("\n") if "-Werror=parentheses" in l)
+        if kinds and kinds <= set(DIAG_FINDINGS) and paren_ok:
             rc, out, err = _run(["cc", "-std=c11", "-O0"] + CFLAGS + ["-Wno-" + k for k in sorted(kinds)] + ["-c", "model.c", "-o", "model.o"], d, 120)
             res["retry_rc"], res["retry_diagnostics"] = rc, (out + err).strip()
         if rc != 0 or res.get("retry_diagnostics"):
@@ -678,6 +702,17 @@ def judge(model, info, pred, files, run_c, run_py):
         undefined = sorted(n for n in called if n not in names_def)
         if undefined:
             P.append(("oracle", "%s: %s called but not defined" % (lang, undefined)))
+        # emitted exactly when the equations use them: a definition that nothing calls
+        unused = sorted(f for f in defined if table[f] not in called)
+        if unused:
+            kept = {f for f, bit in zip(FLAG_NAMES, pred["astflags"]) if bit == "1"}
+            if ext and not (set(unused) & kept):
+                P.append(("known:C17-helper-for-externalised-equation",
+                          "%s implementation of model %s (externals %s): %s defined but never called" % (
+                              lang, model["name"], ",".join(model.get("externals") or []), ", ".join(table[f] for f in unused))))
+            else:
+                P.append(("oracle", "%s: helper functions %s are defined but never called (externals=%s, flags of the kept ASTs %s)" % (
+                    lang, unused, ext, sorted(kept))))
         if sorted(pred["helpers"][lang]) != sorted(defined):
             P.append(("tie", "%s helper set: library %s, model %s" % (lang, sorted(defined), sorted(pred["helpers"][lang]))))
     # model's structured tables against the accessor records
@@ -883,8 +918,8 @@ def run(ctx):
     mdl = _private_copy(vf.ocaml_driver("emit"), workdir, "bin_emit_model")
     genmdl = _private_copy(vf.ocaml_driver("gen"), workdir, "bin_gen_model")
 
-    n_random = 30 if quick else 560
-    n_extra = 46 if quick else 936
+    n_random = 40 if quick else 560
+    n_extra = 76 if quick else 936
     seeds = [ctx.rng.getrandbits(48) for _ in range(n_random)]
     tg = time.time()
     gen = random_models(seeds, genmdl, workdir)
@@ -897,9 +932,10 @@ def run(ctx):
         models.append({"name": "r%04d" % i, "xml": g["xml"], "externals": ext, "meta": {"family": "random", "seed": g["seed"],
                                                                                         "components": g["meta"].get("components"), "nla": g["meta"].get("nla")}})
     models += M.extra_models(ctx.rng, n_extra)
-    ctx.log("models: %d random (%.1fs, %d generator failures) + %d systematic + %d controls" % (
-        len(gen) - len(gen_failed), time.time() - tg, len(gen_failed), n_extra, len(M.control_models())))
-
+    expected_findings = {}
+    for fm in M.finding_models():
+        expected_findings[fm["name"]] = fm["meta"]["expect"]
+        models.append(fm)
     results = process(drv, mdl, models, workdir, "valid")
     hist = {"models": len(models), "ok": 0, "rejected": 0, "crashed": 0, "types": {}, "externals": {"with": 0, "without": 0},
             "combos_ode_ext": {}, "helpers_needed": {}, "placements": {}, "kinds": {}, "info_entries": {}, "nla_systems": 0,
@@ -961,6 +997,9 @@ def run(ctx):
         probs = r["problems"]
         hist["c03_shapes_skipped"] += any(k == "c03" for k, _ in probs)
         real = []
+        seen_here = {k[len("known:"):] for k, _ in probs if k.startswith("known:")}
+        if m["name"] in expected_findings and expected_findings[m["name"]] not in seen_here:
+            ctx.notes.append("the minimal model of known finding %s no longer shows it (repaired?)" % expected_findings[m["name"]])
         for k, t in probs:
             if k == "c03":
                 continue
